@@ -15,6 +15,7 @@ LEMMA_FILES = {
     "DICT-ITEM": ["dict_distinct_step", "dict_item_step", "dict_wf_suffix_step", "dict_haskey_step"],
     "MEM-EX": ["mem_ex_step", "mem_ex_conv_step"],
     "IS-MEM": ["ismem_empty", "ismem_unit", "ismem_concat", "ismem_nth", "ismem_prefix_step", "ismem_prefix_ends"],
+    "CONCAT-ALL": ["concat_nth", "concat_all"],
     "RB-MEM": ["rb_mem_step"],
     "RB-DUP": ["rb_dup_step"],
 }
